@@ -246,8 +246,9 @@ Proof. exact copy_content. Qed.
 Print Assumptions C07_copy_content.
 
 (* the statements of the generators that decide copy-vs-alias are the modelled ones (kernel pins) *)
-Example C07_copy_statements_pinned : copy_statements_pinned = true /\ storage_shapes_pinned = true.
-Proof. split; reflexivity. Qed.
+Example C07_copy_statements_pinned :
+  copy_statements_pinned = true /\ storage_shapes_pinned = true /\ helper_bodies_pinned = true.
+Proof. repeat split; reflexivity. Qed.
 
 (* merge / injection by append: afterwards every column of the events table is a new array, so the merged events
    alias neither the signal table, nor a cache, nor the data sets *)
